@@ -3,7 +3,7 @@
 # and writes /verif/seeded/RESULTS.md (regression run after generator changes).
 cd "$(dirname "$0")/.."
 J="${1:-3}"
-ls -d seeded/*/ | sed 's#seeded/##; s#/##' | xargs -P "$J" -I{} sh -c 'p=$(echo {} | cut -c1-3); [ {} = C17-d ] && p=C06; [ {} = C02-h ] && p=C04; tools/seedcheck.sh seeded/{} $p 2>&1 | grep RESULT | tail -1' | sort > /tmp/seedall.$$
+ls -d seeded/*/ | sed 's#seeded/##; s#/##' | xargs -P "$J" -I{} sh -c 'p=$(echo {} | cut -c1-3); [ {} = C17-d ] && p=C06; [ {} = C02-h ] && p=C04; [ {} = C07-j ] && p=C06; tools/seedcheck.sh seeded/{} $p 2>&1 | grep RESULT | tail -1' | sort > /tmp/seedall.$$
 { echo "# Seeded changes vs the owning property's quick check"; echo; echo '```'; cat /tmp/seedall.$$; echo '```'; echo; echo "caught: $(grep -c CAUGHT /tmp/seedall.$$) / $(wc -l < /tmp/seedall.$$)"; } > seeded/RESULTS.md
 rm -f /tmp/seedall.$$
 tail -3 seeded/RESULTS.md
